@@ -315,6 +315,8 @@ def main(argv=None):
         if len(samples) < 4:
             samples.extend(p['samples'][:1])
 
+    if not samples and tasks:
+        samples = [{'shard': tasks[0]}]
     known = load_known()
     known_sigs = {k['sig']: k for k in known.get('known', []) if k['property_id'] == prop}
     new = [v for v in violations if v['sig'] not in known_sigs]
